@@ -32,8 +32,8 @@ func boundsRule(c *Ctx, rule string, roots []*ssa.Function, scope map[string]boo
 	eng := newBoundsEngine(P)
 	nOb, nFn := 0, 0
 	type rec struct {
-		fn   *ssa.Function
-		sum  *fnSummary
+		fn  *ssa.Function
+		sum *fnSummary
 	}
 	var recs []rec
 	seen := map[*ssa.Function]bool{}
